@@ -37,15 +37,20 @@ RULE_PRED = ("terminate_search / explain_termination / test called directly on r
              "points and hhmmss boundaries; I vs M only. Non-trivial = the test fails (terminated)")
 RULE_CONFIG = ("JSON -> TerminationModelBuilder::build. (i) build only: documented forms, upper-case type names, negative / zero / "
                "huge integers (`as u64`), malformed durations, missing / mistyped fields, nested combined; I vs M (built model "
-               "or error class). (ii) configured models at work (every 3rd case and the fixed chain / star / unreachable / "
+               "or error class). (ii) configured models at work (every 4th case and the fixed chain / star / unreachable / "
                "edge-oriented worlds): a sweep of CONFIGURATIONS - iterations and solution_size limits 0..needed+2, other "
                "spellings, combined, query_runtime budgets 0/1/3/10 s at one frequency under one hook-H2 clock script, negative "
                "numbers, zero frequency - each built by the real builder and a real search run under the builder's own model; "
                "I vs M: built model and the whole observation; I vs S, decided in Coq from the JSON configuration and the "
                "implementation's observations: reading the limits as the property does (limit L >= 0 means L; h:mm:ss seconds "
                "every `frequency` >= 1 iterations), the run must obey clauses (a) (b) (c) of the limits stream for the "
-               "CONFIGURED numbers (so a configured 0 stops every search at its first test, success is monotone over the "
-               "configured sweep) and a well-formed configuration must be accepted; configurations outside that reading are "
+               "CONFIGURED numbers (so a configured 0 stops every search at its first test, success is monotone over the configured "
+               "sweep); query_runtime limit TEXTS over the whole h:mm:ss grammar (1..5 hour digits, leading zeros, mm/ss 00..99, "
+               "100:00:00 .. 99999:59:59, strings outside the notation) under clocks placed around each budget, the budget read from the "
+               "text by an independent Coq spec parser; count limits of 2^31 .. i64::MAX and negative ones (families run_huge_limits_*: "
+               "every search in a memory-capped child process), under ANY accepted configuration a search ends with the unlimited result or "
+               "a terminated error, never with a crash; "
+               "a well-formed configuration must be accepted; configurations outside that reading are otherwise "
                "unspecified. Non-trivial = a combined model is built / the unlimited run makes >= 3 tests")
 
 RULE_APP = ("end to end through the application: one case = one generated network + one JSON query + a SWEEP of applications, each a "
